@@ -192,7 +192,7 @@ def run_c20(case):
     finally:
         shutil.rmtree(d, ignore_errors=True); shutil.rmtree(d_ref, ignore_errors=True)
 
-case = {'compress': True, 'kinds': ['1.0', '1.0', '1.0', '1.0'], 'crash_at': 2, 'torn': None, 'neighbours': 0, 'resession': True}
+case = {'compress': True, 'kinds': ['2.0', '2.0', '2.0', '2.0', '2.0'], 'crash_at': 0, 'torn': 0.9, 'neighbours': 0, 'resession': True}
 bad = run_c20(case)
 print("case:", case)
 print("FAIL: " + bad if bad else "PASS")
